@@ -74,7 +74,10 @@ class Env(edev.Env):
                 out += ['badopen:version', 'badopen:as', 'badopen:hold1', 'badopen:rid0']
             out += ['jump:hold']
         if self.w.peer() is not None:
-            out += ['incoming:low', 'incoming:high', 'api:teardown', 'reload:same', 'reload:changed', 'shutdown']
+            out += ['incoming:low', 'incoming:high', 'api:teardown', 'reload:same', 'reload:changed', 'reload:remove', 'shutdown']
+        elif getattr(self, 'removed', False):
+            # the neighbor was taken out of the configuration by an earlier reload: put it back
+            out += ['reload:restore']
         return out
 
     def do(self, action):
@@ -135,6 +138,14 @@ class Env(edev.Env):
         elif name == 'reload':
             if arg == 'changed':
                 w.set_config(edev.base_config(routes=RELOAD_CHANGED_ROUTES, **CONFIGS[self.config_name]['cfg']))
+            elif arg == 'remove':
+                # the same file without its neighbor section
+                text = edev.base_config(**CONFIGS[self.config_name]['cfg'])
+                w.set_config(text[:text.index('neighbor 127.0.0.2 {')])
+                self.removed = True
+            elif arg == 'restore':
+                w.set_config(edev.base_config(**CONFIGS[self.config_name]['cfg']))
+                self.removed = False
             w.signal('RELOAD')
         elif name == 'shutdown':
             w.signal('SHUTDOWN')
@@ -194,6 +205,8 @@ def monitors(sm: dict) -> list:
     # (4) leaving a connected state closes the transport; nothing stays open without an owner
     owned_now = {p['owned'] for p in sm['peers']}
     for s in sm['sockets']:
+        if s['kind'] == 'in' and not s.get('accepted', True):
+            continue  # still in the listen queue: ExaBGP never had this connection (it listens for configured neighbors only)
         if s['connected'] and not s['closed'] and s['index'] not in owned_now:
             viols.append(('socket-leaked', f'connection {s["index"]} ({s["kind"]}) is still open at the end but no peer owns it'))
     for t, owned, a, b in sm['fsm_log']:
@@ -254,7 +267,7 @@ def run(ctx: core.Ctx) -> None:
     ctx.rule = (f'every execution of the default session script (connect, OPEN/KEEPALIVE exchange, 2 UPDATEs in, 1 API announce, idle) '
                 f'over {STEPS} macro steps with <= k deviations from a state-dependent menu (connect refused, EOF, RST, EPIPE, unexpected message '
                 f'of each type, 3 header faults, 4 bad OPENs, hold-timer jump, inbound connection with lower/higher router-id, API teardown, '
-                f'reload same/changed, shutdown); (configuration, k) plan = {plan}; non-trivial = at least one deviation and a distinct (final FSM, per-socket message count, closed) outcome')
+                f'reload same/changed/without the neighbor/with it again, shutdown); (configuration, k) plan = {plan}; non-trivial = at least one deviation and a distinct (final FSM, per-socket message count, closed) outcome')
     ctx.assumptions += ['virtual loop delivers data before timers at equal instants', 'kernel-level TCP behaviour is modelled as ordered segments + EOF/RST/EPIPE only']
     pool = mp.Pool(min(16, os.cpu_count() or 1))
     budget_s = ctx.budget_s or (150 if ctx.tier == 'quick' else 2400)
